@@ -80,9 +80,35 @@ class Tok:
         Tok._n += 1
         self.label = label
         self.n = Tok._n
+        self.shape = ('shape-of-arrays-of', label.rstrip('0123456789new').split('@')[0])
 
     def __repr__(self):
         return f'<{self.label}>'
+
+
+class DS:
+    """an h5py dataset: reading gives the stored array; writing in place keeps the dataset's dtype and shape,
+    i.e. the new values are CAST to the dtype of the first write (h5py semantics) -- modelled as a distinct token
+    unless the very same array is written back"""
+
+    def __init__(self, value):
+        self.value = value
+
+    @property
+    def shape(self):
+        return getattr(self.value, 'shape', ())
+
+    @property
+    def dtype(self):
+        return ('dtype-of', id(self.value))
+
+    def __getitem__(self, k):
+        return self.value
+
+    def __setitem__(self, k, v):
+        if v is not self.value:
+            t = Tok(f'cast({v!r} -> dtype of {self.value!r})')
+            self.value = t
 
 
 class FS:
@@ -122,7 +148,8 @@ class FileObj:
         return k in self.rec[1]
 
     def __getitem__(self, k):
-        return self.rec[1][k]
+        v = self.rec[1][k]
+        return v if isinstance(v, DS) else DS.__new__(DS).__class__(v) if False else _DSView(self.rec[1], k)
 
     def __delitem__(self, k):
         if self.mode == 'r':
@@ -139,6 +166,25 @@ class FileObj:
             raise ValueError(f'Unable to create dataset (name already exists): {name}')
         self.rec[1][name] = data
         self.fs.log.append(('create', self.name, name, data))
+
+
+class _DSView(DS):
+    """dataset handle bound to its slot in the file (in-place writes are visible to later reads)"""
+
+    def __init__(self, store, key):
+        self._store, self._key = store, key
+
+    @property
+    def value(self):
+        return self._store[self._key]
+
+    @value.setter
+    def value(self, v):
+        self._store[self._key] = v
+
+    @property
+    def attrs(self):
+        return {}
 
 
 class ShimH5:
@@ -188,12 +234,20 @@ class ShimNPfs:
         import numpy
         return getattr(numpy, n)
 
+    def shape(self, x):
+        return getattr(x, 'shape', ())
+
     def array(self, x, *a, **k):
+        if isinstance(x, DS):
+            return x.value
         if isinstance(x, (Tok,)):
             return x
         if isinstance(x, (list, tuple)):
             return ZList(x)
         return x
+
+    def asarray(self, x, *a, **k):
+        return self.array(x)
 
     def sort(self, x):
         return ZList(sorted(x))
